@@ -191,12 +191,16 @@ def sort_window_weights(values, failed, first: int, last: int, cw):
 
 
 # ---------------------------------------------------------------------------
-def lstsq_ok(D: np.ndarray) -> bool:
+def lstsq_ok(D: np.ndarray, floor: float = 0.0) -> bool:
     """Conditioning predicate of C02: full column rank and sigma_min^2 >= 1% of sum sigma^2."""
     if D.ndim != 2 or D.shape[0] < D.shape[1] or D.shape[1] == 0:
         return False
     s = np.linalg.svd(D, compute_uv=False)
     if s.size < D.shape[1]:
+        return False
+    if s.min() < floor:
+        # differences that are rounding noise of the variables (a perturbation clipped onto the bound the point already
+        # sits on, up to the last bit): numerically no perturbation at all, whatever the ratio of the singular values
         return False
     s2 = s**2
     tot = s2.sum()
